@@ -604,7 +604,8 @@ func (fc *funcContext) EndScope() {
 	// DbgLocals is in declaration order over the whole function; a register index
 	// is not a position in it once an inner block has ended and its registers are reused
 	for _, i := range fc.Block.dbgLocals {
-		fc.Proto.DbgLocals[i].EndPc = fc.Code.LastPC()
+		// first instruction at which the variable is dead (the last instruction of the block still sees it)
+		fc.Proto.DbgLocals[i].EndPc = fc.Code.LastPC() + 1
 	}
 }
 
